@@ -1,6 +1,5 @@
 use std::collections::BTreeMap;
 
-use quote::quote;
 use syn::{spanned::Spanned, Data, DeriveInput, Field, Meta, Path, Type};
 
 use super::{
